@@ -199,6 +199,9 @@ class Mamba2020Pass( UnrollSimPass ):
     SCCs, G_new = kosaraju_scc( G, G_T )
 
     onces = top.get_all_update_once()
+    # A block wrapped by WrapGreenletPass stands for its original
+    unwrapped = { w: b for b, w in getattr( top._dag, 'blk_greenlet_mapping', {} ).items() }
+    onces = onces | { w for w, b in unwrapped.items() if b in onces }
     # This function compiles a SCC block
     scc_id = 0 # global id across all sccs
     def compile_scc( i ):
@@ -214,7 +217,7 @@ class Mamba2020Pass( UnrollSimPass ):
           raise UpblkCyclicError("update_once blocks are not allowed to appear in a cycle. \n - " + \
                           "\n - ".join( [
                             f"{y.__name__} ({'@update_once' if y in onces else '@update'} " \
-                            f"in 'top.{repr(top.get_update_block_host_component(y))[2:]}')"
+                            f"in 'top.{repr(top.get_update_block_host_component(unwrapped.get(y, y)))[2:]}')"
                             for y in scc] ))
 
       scc_id += 1
